@@ -449,6 +449,9 @@ def loop_level(res, exe, wd, tier, prop):
 
 
 def check(prop, tier, replay_file=None):
+    if replay_file and prop == "C12" and json.load(open(replay_file)).get("engine") == "E1-mapper-bisimulation":
+        import e1
+        return e1.check_c06(tier, replay_file, prop="C12")
     res = Result(prop, tier, "fault_enumeration" if prop == "C20" else "model_checking")
     try:
         exe = build_harness()
@@ -525,6 +528,9 @@ def check(prop, tier, replay_file=None):
         }
         if fs:
             cov["full_stack_startup"] = fs["evidence"]
+        if prop == "C12" and not res.tool_errors:
+            import e1
+            cov.update(e1.mapper_level_c12(res, exe, workdir("%s-%s-mapper" % (prop, tier)), tier))
         if prop == "C20":
             cov.update({"evaluations": regs["traces"], "distinct_nontrivial": regs["failing_calls_judged"],
                         "rule": cov["rule"] + ". Fault enumeration: for each selected schedule a fault-free run, then one run per driver call index k with the k-th call returning Err; "
